@@ -10,6 +10,7 @@ import ClockBound.Model.DriverWorld
 import ClockBound.Model.Crash
 import ClockBound.Model.DriverThreads
 import ClockBound.Model.DriverHeader
+import ClockBound.Model.DriverSession
 namespace ClockBound.Driver
 open ClockBound
 
@@ -496,6 +497,7 @@ def processLine (line : String) : String :=
   | "client" :: args => clientLine args impl
   | "client2" :: args => client2Line args impl
   | "corder" :: args => corderLine args impl
+  | "session" :: args => DriverS.line args impl
   | "extract" :: args => extractLine args impl
   | "upd" :: args => updLine args impl
   | "gen" :: args => genLine args impl
